@@ -28,6 +28,7 @@ func main() {
 	}
 	run.Floor("passed governance proposals with an Ethereum transaction run by the end blocker", run.Get("governance_proposals_with_an_ethereum_tx_run_by_the_end_blocker"), int64(run.N(6, 60)))
 	<-done
+	run.Floor("filter-leg trials after which every filter was uninstalled and the goroutines serving them were followed to rest", run.Get("filters_trials_checked_for_goroutines_outliving_their_filters"), int64(run.N(20, 400)))
 	run.Finish()
 }
 
